@@ -98,7 +98,12 @@ func (mod *Module) findIdentityBase(baseStr string) (*resolvedIdentity, []error)
 	case "", rootPrefix:
 		// This is a local identity which is defined within the current
 		// module
-		keyName := fmt.Sprintf("%s:%s", module(mod).Name, baseName)
+		owner := module(mod)
+		if owner == nil {
+			errs = append(errs, fmt.Errorf("%s: can't find the module that %s belongs to", source, mod.Name))
+			break
+		}
+		keyName := fmt.Sprintf("%s:%s", owner.Name, baseName)
 		base, ok = typeDict.identities.dict[keyName]
 		if !ok {
 			errs = append(errs, fmt.Errorf("%s: can't resolve the local base %s as %s", source, baseStr, keyName))
@@ -111,8 +116,14 @@ func (mod *Module) findIdentityBase(baseStr string) (*resolvedIdentity, []error)
 				fmt.Errorf("%s: can't find external module with prefix %s", source, basePrefix))
 			break
 		}
+		extowner := module(extmod)
+		if extowner == nil {
+			errs = append(errs,
+				fmt.Errorf("%s: can't find the module that %s belongs to", source, extmod.Name))
+			break
+		}
 		// The identity we are looking for is modulename:basename.
-		if id, ok := typeDict.identities.dict[fmt.Sprintf("%s:%s", module(extmod).Name, baseName)]; ok {
+		if id, ok := typeDict.identities.dict[fmt.Sprintf("%s:%s", extowner.Name, baseName)]; ok {
 			base = id
 			break
 		}
@@ -147,6 +158,10 @@ func (ms *Modules) resolveIdentities() []error {
 		// might process a submodule that no module included.
 		for _, in := range mod.Include {
 			if in.Module == nil {
+				continue
+			}
+			if module(in.Module) == nil {
+				errs = append(errs, fmt.Errorf("%s: can't find the module that submodule %s belongs to", Source(in), in.Module.Name))
 				continue
 			}
 			for _, i := range in.Module.Identities() {
